@@ -646,3 +646,105 @@ def _conjuncts(g):
     if isinstance(g, tuple) and g and g[0] == "binop" and g[1] == "And":
         return _conjuncts(g[2]) + _conjuncts(g[3])
     return [g]
+
+
+# ----------------------------------------------------------------------
+PLUMBING = [
+    # (module path, relation fn, goal type, constraint type, fields in operand order)
+    ("crate::relation::clpfd::plusfd", "plusfd", "PlusFd", "PlusFdConstraint", ("u", "v", "w")),
+    ("crate::relation::clpfd::minusfd", "minusfd", "MinusFd", "MinusFdConstraint", ("u", "v", "w")),
+    ("crate::relation::clpfd::timesfd", "timesfd", "TimesFd", "TimesFdConstraint", ("u", "v", "w")),
+    ("crate::relation::clpfd::ltefd", "ltefd", "LessThanOrEqualFd", "LessThanOrEqualFdConstraint", ("u", "v")),
+    ("crate::relation::clpfd::diseqfd", "diseqfd", "DiseqFd", "DiseqFdConstraint", ("u", "v")),
+    ("crate::relation::clpz::plusz", "plusz", "PlusZ", "PlusZConstraint", ("u", "v", "w")),
+    ("crate::relation::clpz::timesz", "timesz", "TimesZ", "TimesZConstraint", ("u", "v", "w")),
+]
+
+
+def check_operand_plumbing(ctx, lib, rule, only=None):
+    """rel(a, b, c) constrains exactly (a, b, c) in that order: the relation function builds the goal
+    with u = a, v = b, w = c; solve() hands self.u, self.v, self.w in that order to the constraint
+    constructor, which stores them under the same names (the run() tables read them by name)."""
+    n = 0
+    ev = sym.Evaluator(lib)
+    noin = sym.Evaluator(lib, inline=lambda p, f: False, extra_identity={"crate::Upcast::to_super", "crate::Upcast::into_super", "crate::GoalCast::cast_into"})
+    for mod, rel, gty, cty, fields in PLUMBING:
+        if only and rel not in only:
+            continue
+        if lib.fn("%s::%s" % (mod, rel)) is None:
+            continue
+        n += 1
+        fn = streams.getfn(ctx, lib, rule, "%s::%s" % (mod, rel))
+        if fn:
+            t = ev.fn_term(fn)
+            nodes = [s for s in sym.subterms(t) if s[0] == "struct" and s[1].endswith("::" + gty)]
+            ok = len(nodes) == 1
+            if ok:
+                f = dict(nodes[0][2])
+                ok = all(f.get(name, ("", -1))[:2] == ("param", i) for i, name in enumerate(fields)) and len(f) == len(fields)
+            ctx.expect(ok, rule, "%s|goal-operands" % rel, site_of(fn), "%s(%s) must build a %s goal holding its operands in that order; found %s" % (rel, ", ".join(fields), gty, show(t, maxdepth=6)[:200]))
+        fn = streams.getfn(ctx, lib, rule, "<%s::%s as crate::solver::Solve>::solve" % (mod, gty))
+        if fn:
+            t = noin.fn_term(fn)
+            news = list(dict.fromkeys(c for c in sym.calls(t, "%s::new" % cty)))
+            ok = len(news) == 1 and len(news[0][2]) == len(fields) and all(a == ("field", ("param", 0, "self"), name) for a, name in zip(news[0][2], fields))
+            ctx.expect(ok, rule, "%s|posts-own-operands" % rel, site_of(fn), "%s::solve must post %s::new(%s); found %s" % (gty, cty, ", ".join("self." + x for x in fields), [show(c, maxdepth=4) for c in news][:2]))
+        fn = streams.getfn(ctx, lib, rule, "%s::%s::new" % (mod, cty))
+        if fn:
+            t = noin.fn_term(fn)
+            nodes = [s for s in sym.subterms(t) if s[0] == "struct" and s[1].endswith("::" + cty)]
+            ok = len(nodes) == 1
+            if ok:
+                f = dict(nodes[0][2])
+                ok = all(f.get(name, ("", -1))[:2] == ("param", i) for i, name in enumerate(fields)) and len(f) == len(fields)
+            ctx.expect(ok, rule, "%s|constraint-operands" % rel, site_of(fn), "%s::new must store its operands under the names the propagator reads (%s, in order)" % (cty, ", ".join(fields)))
+    ctx.floor(rule, n, 1, "relations with operand plumbing")
+    # ltfd(u, v) = diseqfd(u, v) and ltefd(u, v) on the same operands, same order
+    if only is None or "ltfd" in only:
+        fn = lib.fn("crate::relation::clpfd::ltfd::ltfd")
+        if fn is not None:
+            ctx.fn_seen(fn["npath"])
+            t = noin.fn_term(fn)
+            a = list(dict.fromkeys(c for c in sym.calls(t, "diseqfd")))
+            b = list(dict.fromkeys(c for c in sym.calls(t, "ltefd")))
+            ok = len(a) == 1 and len(b) == 1 and [x[:2] for x in a[0][2]] == [("param", 0), ("param", 1)] and [x[:2] for x in b[0][2]] == [("param", 0), ("param", 1)]
+            ctx.expect(ok, rule, "ltfd|strict-order", site_of(fn), "ltfd(u, v) must be diseqfd(u, v) together with ltefd(u, v), operands in the same order")
+
+
+DSTORE_KEY_EXCEPTIONS = {
+    # function -> (shape of the key, reason)
+    "crate::state::State::update_var_domain": ("param", "callers pass the walked variable (process_domain branches on walk(x); checked by the re-examination rule)"),
+    "crate::state::State::resolve_storable_domain": ("param", "same variable as update_var_domain received"),
+    "crate::state::State::remove_domain": ("param", "called with a just-bound variable under its own name"),
+    "crate::state::State::process_extension_fd": ("extension-key", "keys of the extension are the variables just bound; their domains were stored under those names"),
+    "crate::state::State::exclude_from_domain": ("list-item", "a missed exclusion only delays pruning: the all-different propagator re-tests every member for duplicates once it is bound"),
+}
+
+
+def check_dstore_keys(ctx, lib, rule):
+    """The domain store is keyed by *representative* variables: a domain moves to the value when its
+    variable is bound (process_extension_fd).  So every lookup must use the walked term - looking up
+    the operand as written misses the domain of an aliased variable (and verify_all_bound then
+    rejects a well-formed program)."""
+    ev = sym.Evaluator(lib, inline=lambda p, f: False)
+    n = 0
+    for p, fn in sorted(lib.fns.items()):
+        if "hir" not in fn or fn.get("in_test_mod"):
+            continue
+        t = ev.fn_term(fn)
+        for c in sorted(set(sym.calls(t)), key=str):
+            name = c[1].split("::")[-1]
+            if name not in ("get", "contains_key", "remove", "insert", "get_mut") or "HashMap" not in c[1] or not c[2] or "dstore" not in str(c[2][0]) or len(c[2]) < 2:
+                continue
+            n += 1
+            ctx.fn_seen(p)
+            k = c[2][1]
+            walked = k[0] == "call" and suffix_match(k[1], "SMap::walk")
+            key = "%s|%s(%s)" % (p, name, "walked" if walked else show(k, maxdepth=2)[:40])
+            if walked:
+                ctx.ok(rule, key, site_of(fn), "key is a walk result")
+                continue
+            exc = DSTORE_KEY_EXCEPTIONS.get(p)
+            shape = "param" if k[0] == "param" else "extension-key" if "extension" in str(k) and k[0] == "proj" else "list-item" if k[0] == "item" else "other"
+            ctx.expect(exc is not None and exc[0] == shape, rule, key, site_of(fn), "the domain store is looked up with %s, which is not the walked representative of the variable (an aliased variable's domain lives under its representative)" % show(k, maxdepth=4)[:120])
+    ctx.floor(rule, n, 15, "domain-store lookups")
